@@ -6,6 +6,8 @@ import random
 import sys
 
 from bounded.harness import emit, new_ctx, payload, quiet_stdout
+from bounded.harness import install_watchdog
+install_watchdog()
 
 P = payload()
 tier = P.get("tier", "quick")
@@ -188,7 +190,9 @@ for pi, ptext in enumerate(["{{nwt}}", "<nowiki>q</nowiki>{{nwt}}", "<nowiki>r</
                  f"page {pi} {ptext!r}: {what} gives {got!r}", {"text": ptext, "page_index": pi}, "stale-cookie")
 # comments inside a template body: the transclusion equals that of the body with the comments deleted
 for bi, body in enumerate(["a<!-- one line -->b", "a<!-- two\nlines -->b\nrest", "x<!--\n-->y<!-- c -->z", "t\n<!-- c -->\nu",
-                           "<!-- lead\n -->body {{a|1}}"]):
+                           "<!-- lead\n -->body {{a|1}}", "A<!-- wrap docs in <noinclude> please -->B",
+                           "A<!-- </noinclude> -->B<!-- <noinclude> -->C", "p<!-- <onlyinclude>x</onlyinclude> -->q",
+                           "m<!-- <includeonly> -->n"]):
     import re as _re2
     ctx.add_page(f"Template:cm{bi}", 10, body)
     ctx.add_page(f"Template:cn{bi}", 10, _re2.sub(r"(?s)<!--.*?-->", "", body))
